@@ -36,10 +36,11 @@ def run(case):
             if k == "send":
                 _, _, tag, rid, d = op[:5]
                 name = op[5] if len(op) > 5 else "msg"
+                sender = op[6] if len(op) > 6 else 0
                 if d is None:
-                    ev = Event(name, 0, rid, data=tag); extra = 0
+                    ev = Event(name, sender, rid, data=tag); extra = 0
                 else:
-                    ev = DelayedEvent(name, 0, rid, delay=d * dt, data=tag); extra = int(math.ceil(d))   # ceil((d*dt)/dt)
+                    ev = DelayedEvent(name, sender, rid, delay=d * dt, data=tag); extra = int(math.ceil(d))   # ceil((d*dt)/dt)
                 m.enqueue_event(ev)
                 expected.append([tag, rid, g + extra])
             elif k == "delete":
@@ -79,7 +80,7 @@ def run(case):
                 return "agent %d handled same-step events in order %r" % (aid, plain)
     return None
 
-case = {'n': 4, 'rounds': 2, 'agents': 3, 'ops': [(7, 'create'), (9, 'send', 'p13', 4, None, 'msg'), (9, 'send', 'p14', 4, None, 'note'), (9, 'send', 'p15', 4, None, 'msg'), (9, 'create')]}
+case = {'n': 2, 'rounds': 1, 'agents': 1, 'ops': [(0, 'send', 'd0', 1, 3, 'note', 1), (1, 'delete', 1), (2, 'create')]}
 bad = run(case)
 print("script:", case)
 print("FAIL: " + bad if bad else "PASS")
